@@ -949,6 +949,15 @@ fn cmd_run(o: &Opts) -> i32 {
             n_disk = cells.len();
             collect(&mut st, &mut found, &cells);
         }
+        // phase 4c: seeded deeper histories over all fault kinds together
+        let n_mixed = o.runs.unwrap_or(if quick { 60 } else { 3000 });
+        let mixed: Vec<History> = (0..n_mixed)
+            .map(|i| {
+                let seed = derive(o.seed, "C15-mixed", i as u64);
+                gen::c15_random_mixed(&ctx, &mut Rng::new(seed), seed, quick, strace_ok, mount_ok)
+            })
+            .collect();
+        collect(&mut st, &mut found, &mixed);
         // phase 5: the same code built with other embedded data ("written for other data" for real)
         let mut n_two = 0;
         let mut two_note = "skipped: no alternative build was provided (./check C15 thorough builds one)".to_string();
@@ -991,7 +1000,7 @@ fn cmd_run(o: &Opts) -> i32 {
             n_two = two.len();
             collect(&mut st, &mut found, &two);
         }
-        extra = json!({"full_disk_histories": n_disk, "full_disk": if mount_ok { "the data directory on a tmpfs of its own whose free pages (0..=44) and free inodes (0..=18) are swept; ENOSPC comes from the kernel" } else { "skipped: this process may not mount a tmpfs" }, "two_build_histories": n_two, "two_build": two_note, "syscall_level_histories": n_sys, "syscall_injector": if strace_ok { "strace -f -e inject=<call>:signal=SIGKILL|error=<errno>:when=K around the simnode child" } else { "skipped: strace not available" },
+        extra = json!({"mixed_fault_kind_histories": n_mixed, "full_disk_histories": n_disk, "full_disk": if mount_ok { "the data directory on a tmpfs of its own whose free pages (0..=44) and free inodes (0..=18) are swept; ENOSPC comes from the kernel" } else { "skipped: this process may not mount a tmpfs" }, "two_build_histories": n_two, "two_build": two_note, "syscall_level_histories": n_sys, "syscall_injector": if strace_ok { "strace -f -e inject=<call>:signal=SIGKILL|error=<errno>:when=K around the simnode child" } else { "skipped: strace not available" },
             "listed_states": states.len(), "undisturbed_state_probes": probes.len(), "state_x_crash_point_cells": n_cells, "seeded_deeper_histories": n_random,
             "exhaustive_over": "every listed state class x every hook point its recovery reaches x kill and fail (all sampled k per multi-hit point); other torn lengths / garbage kinds with a seeded sample of sites"});
     } else {
